@@ -47,6 +47,10 @@ let () =
     match a with
     | h :: opts -> dec_str (opts_of_toks opts) (bytes_of_hex h)
     | [] -> failwith "DEC");
+  reg "DPIX" (fun a ->
+    let (_, o) = decode_calls [] (bytes_of_hex (List.nth a 2)) in str_of_outcome o);
+  reg "DECNIL" (fun a ->
+    let (_, o) = decode_calls [] (bytes_of_hex (List.nth a 0)) in str_of_outcome o);
   reg "DVB" (fun a ->
     let (vb, o) = decode_viewbox (bytes_of_hex (List.nth a 0)) in
     match o with
@@ -163,6 +167,7 @@ let rcall_str (c : z rcall) : string =
 let rec rrun_toks s toks =
   let rec upto acc = function
     | "SR" :: a :: b :: c :: d :: r -> (List.rev acc, Some (a, b, c, d, r))
+    | "COPY" :: r -> upto acc r
     | x :: r -> upto (x :: acc) r
     | [] -> (List.rev acc, None) in
   match upto [] toks with
